@@ -33,25 +33,19 @@ Definition sep : str := [58; 58].
 Definition qualify (ns name : str) : str := match ns with [] => name | _ => ns ++ sep ++ name end.
 (* strings.Contains(s, "::") *)
 Fixpoint has_sep (s : str) : bool := match s with 58 :: ((58 :: _) as r) => true | _ :: r => has_sep r | [] => false end.
-(* extractNamespace: everything before the LAST "::" *)
-Definition extract_ns (path : str) : str :=
-  let cs := split_path path in
-  match rev cs with
-  | [] | [_] => []
-  | _ :: r => (fix join (l : list str) : str := match l with [] => [] | [x] => x | x :: t => x ++ sep ++ join t end) (rev r)
-  end.
 Definition mem (x : str) (l : list str) : bool := existsb (str_eqb x) l.
 Fixpoint assoc {A} (x : str) (l : list (str * A)) : option A :=
   match l with [] => None | (k, v) :: r => if str_eqb k x then Some v else assoc x r end.
 
-Record decls := { d_ents : list str; d_enums : list str; d_commons : list (str * sty) }.
+(* d_commons: qualified path -> (declaring namespace, body).  The namespace is recorded at registration (commonTypeNS), never re-derived *)
+Record decls := { d_ents : list str; d_enums : list str; d_commons : list (str * (str * sty)) }.
 
 (* registerDecls: within one namespace an entity and an enum of the same name is an error; maps: a later common type of the same path wins *)
 Definition register (s : s_schema) : option decls :=
   if existsb (fun ns => existsb (fun e => mem (se_name e) (sn_enums ns)) (sn_entities ns)) s then None else
   Some {| d_ents := flat_map (fun ns => map (fun e => qualify (sn_name ns) (se_name e)) (sn_entities ns)) s;
           d_enums := flat_map (fun ns => map (qualify (sn_name ns)) (sn_enums ns)) s;
-          d_commons := flat_map (fun ns => map (fun c : str * sty => (qualify (sn_name ns) (fst c), snd c)) (sn_commons ns)) s |}.
+          d_commons := flat_map (fun ns => map (fun c : str * sty => (qualify (sn_name ns) (fst c), (sn_name ns, snd c))) (sn_commons ns)) s |}.
 
 (* checkShadowing *)
 Definition is_nil_str (s : str) : bool := match s with [] => true | _ => false end.
@@ -64,7 +58,7 @@ Definition shadowing_ok (s : s_schema) : bool :=
                            || existsb (fun a => mem (sac_name a) bare_actions) (sn_actions ns)) named).
 
 Definition is_entity (d : decls) (n : str) : bool := mem n (d_ents d) || mem n (d_enums d).
-Definition common (d : decls) (p : str) : option sty := assoc p (rev (d_commons d)).       (* later registration wins *)
+Definition common (d : decls) (p : str) : option (str * sty) := assoc p (rev (d_commons d)).       (* later registration wins *)
 
 (* resolveTypeRefPath *)
 Definition type_ref_path (d : decls) (ns ref : str) : str :=
@@ -88,8 +82,8 @@ Definition common_names (d : decls) : list str := nodup (list_eq_dec Z.eq_dec) (
 Definition deps_of (d : decls) (name : str) : list str :=
   match common d name with
   | None => []
-  | Some body => filter (fun p => match common d p with Some _ => true | None => false end)
-                        (map (type_ref_path d (extract_ns name)) (collect_refs body))
+  | Some (ns, body) => filter (fun p => match common d p with Some _ => true | None => false end)
+                             (map (type_ref_path d ns) (collect_refs body))
   end.
 
 (* Kahn's algorithm on in-degrees; [fuel] bounds the number of dequeues *)
@@ -160,18 +154,18 @@ Fixpoint resolve_type (fuel : nat) (d : decls) (ns : str) (t : sty) : rres rty :
           | Some b => match builtin b with Some r => ROk r | None => RErr end
           | None =>
             match common d ref with
-            | Some ct => resolve_type f d (extract_ns ref) ct
+            | Some (cns, ct) => resolve_type f d cns ct
             | None => if is_entity d ref then ROk (REnt ref) else RErr
             end
           end
         else
           let q := ns ++ sep ++ ref in
           match (if is_nil_str ns then None else common d q) with
-          | Some ct => resolve_type f d ns ct
+          | Some (cns, ct) => resolve_type f d cns ct
           | None =>
             if negb (is_nil_str ns) && is_entity d q then ROk (REnt q)
             else match common d ref with
-                 | Some ct => resolve_type f d [] ct
+                 | Some (cns, ct) => resolve_type f d cns ct
                  | None => if is_entity d ref then ROk (REnt ref)
                            else match builtin ref with Some r => ROk r | None => RErr end
                  end
@@ -187,7 +181,7 @@ Fixpoint sty_size (t : sty) : nat :=
   | _ => 1%nat
   end.
 Definition resolve_fuel (d : decls) (t : sty) : nat :=
-  (S (sty_size t) * S (fold_right (fun c acc => (sty_size (snd c) + acc)%nat) 0%nat (d_commons d)) * S (List.length (d_commons d)))%nat.
+  (S (sty_size t) * S (fold_right (fun c acc => (sty_size (snd (snd c)) + acc)%nat) 0%nat (d_commons d)) * S (List.length (d_commons d)))%nat.
 
 (* ---- actions ---- *)
 Definition action_type (ns : str) : str := qualify ns (s_of "Action").
